@@ -169,8 +169,50 @@ def r08c(ctx):
                           f"ListNode reports a zero-cost match under {facts}, not under tuple equality: swapped elements could cost 0")
 
 
+def r08d(ctx):
+    m = ctx.model
+    ctx.rule("R08d", "the pairing of unordered collections is decided by equality only: in the multiset / keyed edit "
+                     "constructors no ordering comparison (<, <=, >, >=) between elements or keys of the collections steers a "
+                     "loop (break / continue / skipped lookup) - an early exit that relies on the items being sorted makes "
+                     "the result depend on the order keys were written in (mixed-type keys have no consistent order)")
+    n = 0
+    for cname, meths in (("MultiSetEdit", ("__init__",)), ("FixedKeyDictNode", ("_child_edits", "edits")),
+                         ("MultiSetNode", ("edits",)), ("DictNode", ("edits",))):
+        q = m.need_class(cname)
+        for mn in meths:
+            f = m.method(q, mn)
+            if f is None:
+                continue
+            n += 1
+            loopvars = set()
+            for lp in walk_no_nested(f.node):
+                if isinstance(lp, ast.For):
+                    loopvars |= {x.id for x in ast.walk(lp.target) if isinstance(x, ast.Name)}
+            bad = []
+            for c in walk_no_nested(f.node):
+                if isinstance(c, ast.Compare) and any(isinstance(o, (ast.Lt, ast.LtE, ast.Gt, ast.GtE)) for o in c.ops):
+                    roots = set()
+                    for side in [c.left] + c.comparators:
+                        if isinstance(side, ast.Call) and call_name(side) == "len":
+                            continue
+                        roots |= {x.id for x in ast.walk(side) if isinstance(x, ast.Name)}
+                    if roots & loopvars:
+                        bad.append(c)
+            if bad:
+                for c in bad:
+                    ctx.violation("R08d", f.file, f.short, c, f"{f.short} ordering comparison `{norm(c, 30)}`",
+                                  f"`{norm(c, 50)}` compares items of an unordered collection by order inside {f.short}: "
+                                  f"whether a pair is found then depends on the iteration order of the collection (and on a "
+                                  f"total order that mixed-type keys do not have), so reordering keys changes pairing and cost")
+            else:
+                ctx.proved("R08d", f.file, f.short, f.node, f"{f.short} equality-only lookup",
+                           "no ordering comparison on collection items", nontrivial=False)
+    ctx.floor("R08d", n, 4, "multiset / keyed edit methods")
+
+
 def run(ctx):
     r08a(ctx)
     r08b(ctx)
     r08c(ctx)
+    r08d(ctx)
     ctx.assume("tie-breaking among equal-cost assignments inside the third-party solver is not decided")
